@@ -60,7 +60,7 @@ def streams(ctx):
 
 def check(ctx):
     drv = gc.build(ctx)
-    r = ctx.tlc("GstuffMC", "GstuffMCthorough.cfg" if ctx.thorough else "GstuffMC.cfg", workers=16, timeout=2400, xmx="24g")
+    r = ctx.tlc("GstuffMC", "GstuffMCthorough.cfg" if ctx.thorough else "GstuffMC.cfg", workers=16, timeout=2400, xmx="24g", coverage=not ctx.thorough)
     if not r.ok:
         ctx.model_violation(r, "receiver x monitor product")
     if ctx.thorough:   # beyond the exhaustive bound: random streams against receivers of capacity 6 and 8
